@@ -191,6 +191,13 @@ def jobs(tier):
         for ps in (3,) if q else (3, 5):
             J.append(Job(f'Deconvolution2D.shipped:BC={BC}:PSF_size={ps}:dim=4', lambda c: shipped(c, 'Deconvolution2D'), 'Pbox',
                          TPF + ['cuqi.testproblem._testproblem:Deconvolution2D.__init__'], pre=_mk('Deconvolution2D', dim=4, PSF_size=ps, BC=BC), timeout=900))
+    # every named point-spread function with the boundary conditions whose adjoint is the flipped-PSF convolution for point-symmetric PSFs (odd sizes)
+    for PSF in ('Gauss', 'Moffat', 'Defocus'):
+        for BC in ('Neumann', 'periodic') if q else ('Neumann', 'periodic', 'zero'):
+            for ps in ((3,) if q else (3, 5)):
+                J.append(Job(f'Deconvolution2D.shipped:PSF={PSF}:BC={BC}:PSF_size={ps}:dim=4', lambda c: shipped(c, 'Deconvolution2D'), 'Pbox',
+                             TPF + ['cuqi.testproblem._testproblem:Deconvolution2D.__init__', 'cuqi.testproblem._testproblem:_MoffatPSF', 'cuqi.testproblem._testproblem:_DefocusPSF'],
+                             pre=_mk('Deconvolution2D', dim=4, PSF=PSF, PSF_size=ps, PSF_param=1.2, BC=BC), timeout=900))
     for BC in ('periodic', 'zero', 'Reflect', 'Mirror', 'Nearest') if not q else ('periodic', 'zero'):
         J.append(Job(f'Deconvolution1D.shipped:BC={BC}:dim=6', lambda c: shipped(c, 'Deconvolution1D'), 'Pbox',
                      ['cuqi.testproblem._testproblem:Deconvolution1D.__init__', 'cuqi.testproblem._testproblem:_getConvolutionOperator'],
